@@ -1,0 +1,40 @@
+// The Licensed Work is (c) 2022 Sygma
+// SPDX-License-Identifier: LGPL-3.0-only
+
+package util
+
+import (
+	"os"
+	"path/filepath"
+)
+
+// WriteFileAtomic replaces the content of the file at path with data in a way that a reader, or a
+// restart after a crash, finds either the complete previous content or the complete new content:
+// data is written to a temporary file in the same directory, flushed to disk and renamed over path.
+// On any error the previous file is left untouched and the temporary file is removed.
+func WriteFileAtomic(path string, data []byte, perm os.FileMode) (err error) {
+	tmp, err := os.CreateTemp(filepath.Dir(path), filepath.Base(path)+".tmp-*")
+	if err != nil {
+		return err
+	}
+	defer func() {
+		if err != nil {
+			_ = tmp.Close()
+			_ = os.Remove(tmp.Name())
+		}
+	}()
+
+	if _, err = tmp.Write(data); err != nil {
+		return err
+	}
+	if err = tmp.Chmod(perm); err != nil {
+		return err
+	}
+	if err = tmp.Sync(); err != nil {
+		return err
+	}
+	if err = tmp.Close(); err != nil {
+		return err
+	}
+	return os.Rename(tmp.Name(), path)
+}
